@@ -616,7 +616,9 @@ theorem ew_finalize_abs (ft : FloatText) (e e' : EW) (tr : String → Option Str
   · cases h
   · split at h
     · cases h
-    · rename_i xml0 _ xml _
+    split at h
+    · cases h
+    · rename_i xml0 _ _ xml _
       change ite _ _ _ = _ at h
       split at h
       · cases h
